@@ -34,7 +34,7 @@ MSG = {
     "does not fit into Lua integer": "EDoesNotFit", "string longer than format spec": "EStringLongerThanFormat",
     "string does not fit": "EStringDoesNotFit", "variable-length format": "EVariableLength",
     "invalid format: option size overflow": "EOverflow", "string contains zeros": "EStringContainsZeros",
-    "not enough values for format string": "ENotEnoughValues", "EOF": "EEOF",
+    "not enough values for format string": "ENotEnoughValues", "EOF": "EEOF", "format result too large": "EResultTooLarge",
 }
 
 MININT, MAXINT = -(1 << 63), (1 << 63) - 1
@@ -258,6 +258,140 @@ def ref_pack(tokens, values):
                 ret.append(v + bytes(n - len(v)))
         i += 1
     return ("ok", bytes(out), ret)
+
+
+FORMAT_ERRORS = ("EBadOptionArg", "EMissingSize", "EExpectedOption", "EBadAlignment", "EOverflow", "EBadFormat", "EResultTooLarge")
+
+
+def ref_layout(tokens):
+    """Well-formedness and size of a pack format by the manual (native sizes / limits as chosen by golua: option sizes
+    are read as 64-bit unsigned numbers, a result must fit a Lua integer).  Independent of any value.
+    Returns ('err', why) | ('ok', size) | ('var', None) for well-formed variable-length formats."""
+    maxal, size, var = 1, 0, False
+    i = 0
+
+    def al_of(t):
+        k = t[0]
+        if k in ("int", "s"):
+            return t[1]
+        if k == "flt":
+            return 4 if t[1] == "f" else 8
+        if k == "x":
+            return 1
+        return 0
+
+    def check(t):
+        k = t[0]
+        if k in ("int", "s") and not (1 <= t[1] <= 16):
+            return "bad size"
+        if k == "c" and (t[1] is None or t[1] >= 1 << 64):
+            return "bad size"
+        if k == "!" and t[1] is not None and not (1 <= t[1] <= 16):
+            return "bad !"
+        if k == "bad":
+            return "malformed"
+        return None
+
+    while i < len(tokens):
+        t = tokens[i]
+        k = t[0]
+        e = check(t)
+        if e:
+            return ("err", e)
+        if k == "!":
+            maxal = t[1] if t[1] is not None else 1
+        elif k == "X":
+            if i + 1 >= len(tokens):
+                return ("err", "X at end")
+            nx = tokens[i + 1]
+            e = check(nx)
+            if e:
+                return ("err", e)
+            a = al_of(nx)
+            if a == 0:
+                return ("err", "X before non-alignable")
+            a = min(a, maxal)
+            if a & (a - 1):
+                return ("err", "alignment")
+            size += (-size) % a
+            i += 1
+        elif k in ("int", "flt", "s", "x", "c", "z"):
+            a = min(al_of(t), maxal) if k in ("int", "flt", "s") else 0
+            if a:
+                if a & (a - 1):
+                    return ("err", "alignment")
+                size += (-size) % a
+            if k == "int":
+                size += t[1]
+            elif k == "flt":
+                size += 4 if t[1] == "f" else 8
+            elif k == "x":
+                size += 1
+            elif k == "c":
+                size += t[1]
+            else:
+                var = True
+        if size > MAXINT:
+            return ("err", "result too large")
+        i += 1
+    return ("var", None) if var else ("ok", size)
+
+
+SIZESET = [0, 1, 2, 3, 4, 5, 7, 8, 9, 12, 15, 16, 17, 32, 1 << 31, (1 << 63) - 1, 1 << 63, (1 << 64) - 1, 1 << 64, (1 << 64) + 1,
+           (1 << 64) + 2, (1 << 64) + 3, 184467440737095516160, 99999999999999999999, 18446744073709551616000, 1844674407370955162]
+
+
+def gen_wf(rng):
+    """Short formats stressing well-formedness: option sizes from SIZESET, X followed by every option kind,
+    !n for every n in 1..17 (and SIZESET), with dummy fitting values."""
+    def sized(kind, n):
+        if kind == "i":
+            return ("int", n, True, "i%d" % n)
+        if kind == "I":
+            return ("int", n, False, "I%d" % n)
+        if kind == "s":
+            return ("s", n, "s%d" % n)
+        if kind == "c":
+            return ("c", n)
+        return ("!", n)
+
+    def any_opt():
+        r = rng.below(14)
+        if r < 5:
+            n = rng.choice(SIZESET) if rng.chance(1, 2) else 1 + rng.below(17)
+            return sized(rng.choice("iIsc!"), n)
+        if r < 7:
+            o = rng.choice(list(INT_KINDS))
+            return ("int",) + INT_KINDS[o] + (o,)
+        if r < 8:
+            return ("flt", rng.choice("fdn"))
+        if r < 9:
+            return ("int", 8, True, "i") if rng.chance(1, 2) else ("s", 8, "s")
+        return rng.choice([("x",), ("z",), (" ",), ("<",), (">",), ("=",), ("!", None), ("c", None), ("X",), ("bad", "y")])
+    toks = []
+    if rng.chance(2, 3):
+        toks.append(("!", rng.choice([None] + list(range(1, 18)) + SIZESET[12:])))
+    for _ in range(1 + rng.below(3)):
+        if rng.chance(1, 3):
+            toks.append(("X",))
+        toks.append(any_opt())
+    if rng.chance(1, 8):
+        toks.append(("X",))
+    vals = []
+    i = 0
+    while i < len(toks):
+        t = toks[i]
+        if t[0] == "X":
+            i += 2
+            continue
+        if t[0] == "int":
+            vals.append(1)
+        elif t[0] == "flt":
+            vals.append(1.5)
+        elif t[0] in ("s", "z", "c"):
+            vals.append(b"a" if not (t[0] == "c" and t[1] == 0) else b"")
+        i += 1
+    return toks, vals + [1, 1]
 
 
 def tok_text(t, explicit=True):
@@ -584,6 +718,7 @@ def run(tier, seed):
     st = State(ck, gvh, oracle)
     st.corpus()
     st.pack_cases(8000 if tier == "quick" else 150000)
+    st.wf_cases(2500 if tier == "quick" else 40000)
     st.unpack_fuzz(2500 if tier == "quick" else 80000)
     st.quote_cases(3 if tier == "quick" else 4)
     st.number_cases(3000 if tier == "quick" else 60000)
@@ -841,6 +976,61 @@ class State:
                 i += 1
         return None
 
+    def wf_cases(self, n):
+        """pack, unpack and packsize must agree on which formats are well formed (and with the manual)."""
+        ck = self.ck
+        rng = ck.rng
+        lines, meta = [], []
+        for i in range(n):
+            toks, vals = gen_wf(rng)
+            fmtb = fmt_of(toks)
+            huge = any(t[0] == "c" and t[1] is not None and 4096 < t[1] <= MAXINT for t in toks)
+            lay = ref_layout(toks)
+            if not huge:
+                lines.append("w%dp R %s %s" % (i, hexs(fmtb), vals_tok(vals))); meta.append(("P", toks, lay, fmtb))
+            lines.append("w%ds S %s" % (i, hexs(fmtb))); meta.append(("S", toks, lay, fmtb))
+            lines.append("w%du U %s %s 1" % (i, hexs(fmtb), "00" * 96)); meta.append(("U", toks, lay, fmtb))
+        impl, model = self.both(lines, resilient=True)
+        for i, (op, toks, lay, fmtb) in enumerate(meta):
+            if i >= len(impl) or i >= len(model):
+                break
+            gi, mo = fields(impl[i]), fields(model[i])
+            key = {"P": "P", "S": "S", "U": "U"}[op]
+            g = go_class(gi.get(key, "?" + impl[i][:60]))
+            m = norm_model(mo.get(key, "?"))
+            ck.count("wf:%s:%s" % (op, lay[0] if lay[0] != "err" else "err:" + lay[1]))
+            ck.case(lines[i].split(" ", 1)[1], lay[0] != "ok" or op != "U")
+            gerr = g.startswith("err:")
+            gfmt = gerr and g[4:].split("/")[0] in FORMAT_ERRORS
+            bad = None
+            if lay[0] == "err":
+                if not gerr:
+                    bad = "malformed format (%s) accepted by %s" % (lay[1], {"P": "string.pack", "S": "string.packsize", "U": "string.unpack"}[op])
+            else:
+                if op == "S":
+                    want = "ok:i%d" % lay[1] if lay[0] == "ok" else "err:EVariableLength"
+                    if g != want:
+                        bad = "string.packsize: expected %s, got %s" % (want, g)
+                elif gfmt:
+                    bad = "well-formed format rejected as malformed by %s (%s)" % ({"P": "string.pack", "U": "string.unpack"}[op], g)
+            if bad:
+                self.s_violation("pack/unpack/packsize disagree with the manual on well-formedness: " + bad,
+                                 {"kind": "Go!=S", "engine": "pack", "line": lines[i], "format": fmtb.decode("latin-1"), "impl": impl[i],
+                                  "model": model[i], "manual": lay, "theorems": ["C17_malformed_format_is_error", "C17_packsize_agrees"]})
+            # Go vs IM
+            if "EUnmodelled" in model[i]:
+                continue
+            same = gerr if m == "err:EOverflow" else (g == m)
+            if op == "P" and same and g.startswith("ok:"):
+                gu, mu = gi.get("U", "?"), norm_model(mo.get("U", "?"))
+                gu = go_class(gu) if gu.startswith("err:") else gu
+                same = gu == mu and go_class(gi.get("S", "?")) == norm_model(mo.get("S", "?")) or (norm_model(mo.get("S", "?")) == "err:EOverflow")
+                if lay[0] != "err" and not gu.startswith("ok:"):
+                    self.s_violation("string.unpack fails on string.pack's own output: " + gu,
+                                     {"kind": "Go!=S", "engine": "pack", "line": lines[i], "format": fmtb.decode("latin-1"), "impl": impl[i]})
+            if not same:
+                self.im_difference(lines[i], impl[i], model[i])
+
     def unpack_fuzz(self, n):
         ck = self.ck
         rng = ck.rng
@@ -969,8 +1159,10 @@ class State:
                 for width in ["", "1", "5", "12", "25"]:
                     for prec in ["", ".0", ".3", ".12"]:
                         specs.append("%" + flags + width + prec + conv)
-        for sp in ["%s", "%5s", "%-5s", "%.2s", "%10.3s", "%.0s", "%-8.5s", "%%", "a%sb%sc"]:
-            specs.append(sp)
+        sspecs = ["%s", "%5s", "%-5s", "%.2s", "%10.3s", "%.0s", "%-8.5s", "%%", "a%sb%sc", "%.1s", "%3s", "%-3s", "%6.1s", "%-6.4s",
+                  "%2.5s", "%05s", "%-05s", "%+5s", "% 5s", "%#5s", "%1s", "%12s", "%.3s"]
+        for sp in sspecs:
+            specs += [sp, sp]
         for k in range(n // 3):
             sp = rng.choice(specs)
             conv = sp[-1]
@@ -979,7 +1171,8 @@ class State:
             elif conv == "c":
                 v = rng.choice([65, 97, 0, 10, 255, 48, 128])
             else:
-                v = rng.choice([b"", b"a", b"hello", b"a\x00b", b"\xff\xfe", b"wide string here"])
+                v = rng.choice([b"", b"a", b"hello", b"a\x00b", b"\xff\xfe", b"wide string here", "é".encode(), "éa€".encode(), "日本語".encode(),
+                                "\U0001f600x".encode(), b"\xc3", b"\xe2\x82", b"a\xffb\xc3\xa9", b"\x80\x80\x80\x80\x80\x80", "ééééééé".encode()])
             args = [] if sp == "%%" else [v, v] if sp == "a%sb%sc" else [v]
             lines.append("n%d F %s %s" % (len(lines), hexs(sp.encode()), vals_tok(args))); meta.append(("f", (sp, args)))
         impl, model = self.both(lines)
@@ -1006,9 +1199,10 @@ class State:
                 if gi.get("S") != mo.get("S") or gi.get("N") != mo.get("N"):
                     self.im_difference(lines[i], impl[i], model[i])
             elif kind == "qf":
-                # property: the loaded value == v under Lua's == (NaN: the result is NaN); -0.0 only under ==
+                # property: the loaded value is the SAME float: same subtype (math.type float), same bits (so -0.0 keeps
+                # its sign: 1/x distinguishes it), NaN for NaN.  (Round 6: '==' alone let "-0" -> integer 0 and "2" -> 2 pass.)
                 got = gi.get("V", "-")
-                ok = gi.get("L") == "K" and lua_eq(got, v)
+                ok = gi.get("L") == "K" and got == val_tok(v) and (gi.get("T") == "float")
                 if not ok:
                     self.s_violation("load('return '..string.format('%%q', %r))() ~= the float" % v,
                                      {"kind": "Go!=S", "engine": "pack", "line": lines[i], "impl": impl[i]})
@@ -1095,10 +1289,14 @@ def real_c_printf(ck, meta):
             continue
         sp, args = v
         conv = sp[-1]
-        if conv not in "diuxXoc" or sp == "%%" or c_undefined(sp):
+        if conv not in "diuxXocs" or sp == "%%" or sp == "a%sb%sc" or c_undefined(sp):
             continue
         body = sp[1:-1].replace(" ", "_")
-        if conv == "c":
+        if conv == "s":
+            if b"\x00" in args[0] or len(args[0]) > 30:
+                continue
+            lines.append("%%%ss b %s" % (body, hexs(args[0])))
+        elif conv == "c":
             lines.append("%%%sc c %d" % (body, args[0]))
         elif conv in "di":
             lines.append("%%%slld s %d" % (body, args[0]))
@@ -1130,6 +1328,8 @@ def c_undefined(sp):
         return any(f in flags for f in "+ ")
     if conv == "c":
         return any(f in flags for f in "#+ 0") or "." in body
+    if conv == "s":
+        return any(f in flags for f in "#+ 0")
     return True
 
 
